@@ -4,14 +4,17 @@
    c36_wait(i)           wait until that callback has returned; returns its result
    c36_call(i)           = c36_call_async + c36_wait
    c36_exit(i)           thread i terminates (pthread key destructors run); joined
+   c36_own(i, arg)       thread i does PyGILState_Ensure(); cb(arg); PyGILState_Release() (Python API via dlsym)
    c36_direct(cb, x)     call cb(x) in the calling (Python) thread */
+#define _GNU_SOURCE
+#include <dlfcn.h>
 #include <pthread.h>
 #include <semaphore.h>
 #include <stdlib.h>
 
 typedef int (*c36_cb_t)(int);
-#define C36_MAXT 8192
-static struct c36_th { pthread_t th; sem_t go, done; int id, cmd, result, started; c36_cb_t cb; } T[C36_MAXT];
+#define C36_MAXT 65536
+static struct c36_th { pthread_t th; sem_t go, done; int id, cmd, result, started, arg; c36_cb_t cb; } T[C36_MAXT];
 
 static void *c36_main(void *arg)
 {
@@ -19,6 +22,15 @@ static void *c36_main(void *arg)
     for (;;) {
         sem_wait(&t->go);
         if (t->cmd == 1) { t->result = t->cb(t->id); sem_post(&t->done); }
+        else if (t->cmd == 3) {
+            /* the thread brackets the call with its OWN PyGILState_Ensure/Release: the cffi callback is
+               entered with the GIL already held (gil_ensure returns PyGILState_LOCKED) */
+            int (*ensure)(void) = (int (*)(void))dlsym(RTLD_DEFAULT, "PyGILState_Ensure");
+            void (*release)(int) = (void (*)(int))dlsym(RTLD_DEFAULT, "PyGILState_Release");
+            if (ensure == NULL || release == NULL) t->result = -12345;
+            else { int st = ensure(); t->result = t->cb(t->arg); release(st); }
+            sem_post(&t->done);
+        }
         else break;
     }
     return NULL;
@@ -35,4 +47,5 @@ int c36_call_async(int i) { T[i].cmd = 1; sem_post(&T[i].go); return 0; }
 int c36_wait(int i) { sem_wait(&T[i].done); return T[i].result; }
 int c36_call(int i) { c36_call_async(i); return c36_wait(i); }
 int c36_exit(int i) { T[i].cmd = 2; sem_post(&T[i].go); return pthread_join(T[i].th, NULL); }
+int c36_own(int i, int arg) { T[i].cmd = 3; T[i].arg = arg; sem_post(&T[i].go); sem_wait(&T[i].done); return T[i].result; }
 int c36_direct(c36_cb_t cb, int x) { return cb(x); }
